@@ -7,7 +7,7 @@ WT=$(mktemp -d /tmp/seedwt.XXXXXX); rmdir "$WT"
 git -C /repo worktree add -q --detach "$WT" HEAD || exit 2
 trap 'git -C /repo worktree remove --force "$WT" >/dev/null 2>&1' EXIT
 cd "$WT"
-cp "$D"/zz_seed_demo_test.go . 2>/dev/null || { echo "RESULT $D nodemo"; exit 0; }
+cp "$D"/zz_seed_demo_test.go . 2>/dev/null || cp "$D"/zz_seed_demo_test.go.txt ./zz_seed_demo_test.go 2>/dev/null || { echo "RESULT $D nodemo"; exit 0; }
 RACE=""; grep -q '"race"' "$D/meta.json" 2>/dev/null && true
 without=$(go test -vet=off -count=1 -timeout 10m -run 'Seed|ZZ' . 2>&1 | tail -1)
 if ! git apply --3way "$D/patch.diff" >/dev/null 2>&1 && ! git apply "$D/patch.diff" >/dev/null 2>&1; then echo "RESULT $D applies=no without=[$without]"; exit 0; fi
